@@ -2,7 +2,7 @@
 //@ props: C04 C08
 //@ implicit: C08
 //@ source: src/debugger/debugee/dwarf/unit/mod.rs
-//@ fn: BsUnit::find_place_by_idx, BsUnit::find_place_by_pc, BsUnit::find_exact_place_by_pc, BsUnit::find_eb, PlaceDescriptor::from, PlaceDescriptor::next, PlaceDescriptor::prev, LineRow::{is_stmt,prolog_end,epilog_begin,end_sequence}
+//@ fn: FatDieRef<Function>::prolog_end_place, BsUnit::find_lines_for_range, BsUnit::find_place_by_idx, BsUnit::find_place_by_pc, BsUnit::find_exact_place_by_pc, BsUnit::find_eb, PlaceDescriptor::from, PlaceDescriptor::next, PlaceDescriptor::prev, LineRow::{is_stmt,prolog_end,epilog_begin,end_sequence}
 //@ shim: src/debugger/debugee/dwarf/unit/mod.rs :: struct LineRow :: address: u64, file_index: u64, line: u64, column: u64, flags: u8
 //@ shim: src/debugger/debugee/dwarf/unit/mod.rs :: struct BsUnit :: lines: Vec<LineRow>
 //@ shim: src/debugger/debugee/dwarf/unit/mod.rs :: struct PlaceDescriptor :: file_idx: u64, address: GlobalAddress, line_number: u64, pos_in_unit: usize, is_stmt: bool, column_number: u64, epilog_begin: bool, end_sequence: bool, prolog_end: bool, unit: &'a BsUnit
@@ -274,6 +274,37 @@ impl BsUnit {
 //@   loop 0 decreases: for_end_1 - pos
 //@   proof before `result.push(end_place);`: assert(forall|i: int| 0 <= i < result@.len() ==> (#[trigger] result@[i]).pos_in_unit == start_place_pos_in_unit + i && start_place_pos_in_unit + i <= end_place.pos_in_unit);
 //@   loop 0 invariant I_lr2: forall|i: int| 0 <= i < result@.len() ==> describes(#[trigger] result@[i], self, start_place_pos_in_unit + i)
+//@ end
+}
+
+pub struct DwarfError;
+/// FatDieRef<'_, Function>: only the walk over line rows is under contract; the DIE / range access
+/// (`prolog_start_place`: start_instruction + find_place_from_pc, gimli) is an external call
+pub struct FatDieRefFunction<'a> {
+    pub unit_ref: &'a BsUnit,
+}
+pub uninterp spec fn spec_prolog_start_pos(f: &FatDieRefFunction) -> int;
+
+pub open spec fn is_pe(u: &BsUnit, k: int) -> bool { u.lines@[k].flags & 4 == 4 }
+
+impl<'a> FatDieRefFunction<'a> {
+    #[verifier::external_body]
+    pub fn prolog_start_place(&self) -> (r: Result<PlaceDescriptor<'a>, DwarfError>)
+        ensures r is Ok ==> describes(r->Ok_0, self.unit_ref, spec_prolog_start_pos(self)),
+    {
+        unimplemented!()
+    }
+
+//@ extract: impl FatDieRef<'dbg, Function> / fn prolog_end_place
+//@   file: src/debugger/debugee/dwarf/unit/die_ref.rs
+//@   sig: pub fn prolog_end_place(&self) -> (r: Result<PlaceDescriptor<'a>, DwarfError>)
+//@   ensures E_pe1: r is Ok ==> describes(r->Ok_0, self.unit_ref, r->Ok_0.pos_in_unit as int) && r->Ok_0.pos_in_unit >= spec_prolog_start_pos(self)
+//@   ensures E_pe2: r is Ok ==> (r->Ok_0.prolog_end || r->Ok_0.pos_in_unit == self.unit_ref.lines@.len() - 1)
+//@   ensures E_pe3: r is Ok ==> forall|k: int| spec_prolog_start_pos(self) <= k < r->Ok_0.pos_in_unit ==> !#[trigger] is_pe(self.unit_ref, k)
+//@   proof after `let mut place = self.prolog_start_place()?;`: vstd::std_specs::vec::axiom_spec_len(&self.unit_ref.lines);
+//@   loop 0 invariant I_pe1: describes(place, self.unit_ref, place.pos_in_unit as int) && place.pos_in_unit >= spec_prolog_start_pos(self)
+//@   loop 0 invariant I_pe2: forall|k: int| spec_prolog_start_pos(self) <= k < place.pos_in_unit ==> !#[trigger] is_pe(self.unit_ref, k)
+//@   loop 0 decreases: self.unit_ref.lines@.len() - place.pos_in_unit
 //@ end
 }
 
